@@ -42,6 +42,8 @@ INT_REGRESSIONS = (
      "non-strings unchanged (pinned tree)"),
     ("CimTypesIntImplNoRange.cfg", "CIMInt without range check"),
     ("CimTypesIntImplAnyCimInt.cfg", "cimvalue returns any CIMInt unchanged"),
+    ("CimTypesIntImplArrayHeadShortcut.cfg", "cimvalue returns a list "
+     "unchanged when its first item already has the class of the type"),
 )
 DT_REGRESSIONS = (
     ("CimTypesDateTimeImplLegacyUsec.cfg", "RoundTrip ParseClosed",
@@ -57,9 +59,11 @@ DT_REGRESSIONS = (
 
 
 # ---------------------------------------------------------------------------
-def _load_dir(d):
+def _load_dir(d, arr=False):
     items = []
     for fn in sorted(glob.glob(os.path.join(d, "*.json"))):
+        if os.path.basename(fn).startswith("arr_") != arr:
+            continue
         with open(fn) as f:
             items.extend(json.load(f))
     return items
@@ -79,10 +83,11 @@ def model_check(ctx, quick):
     for cfg, what in INT_REGRESSIONS:
         r = ctx.tlc("CimTypesIntMC", cfg, must_pass=False, count=False,
                     label="regression config: " + what)
-        if r.violated != "ImplWithinReq":
-            raise vlib.MachineryError("%s did not violate ImplWithinReq: %s"
-                                      % (cfg, r.violated))
-        sens.append("%s violates ImplWithinReq as required (%s)" % (cfg, what))
+        inv = ("ArrImplWithinReq" if "ArrayHead" in cfg else "ImplWithinReq")
+        if r.violated != inv:
+            raise vlib.MachineryError("%s did not violate %s: %s"
+                                      % (cfg, inv, r.violated))
+        sens.append("%s violates %s as required (%s)" % (cfg, inv, what))
     ctx.tlc("CimTypesDateTimeMC",
             "CimTypesDateTimeImpl.cfg" if quick
             else "CimTypesDateTimeImplBig.cfg",
@@ -99,15 +104,17 @@ def model_check(ctx, quick):
         sens.append("%s violates %s as required (%s)" % (cfg, inv, what))
     ctx.extra["sensitivity"] = sens
     cells = _load_dir(cells_dir)
+    arrs = _load_dir(cells_dir, arr=True)
     dts = _load_dir(dt_dir)
-    if not cells or not dts:
-        raise vlib.MachineryError("TLC emitted no inputs (%d cells, %d "
-                                  "datetime items)" % (len(cells), len(dts)))
+    if not cells or not dts or not arrs:
+        raise vlib.MachineryError("TLC emitted no inputs (%d cells, %d array "
+                                  "cells, %d datetime items)" %
+                                  (len(cells), len(arrs), len(dts)))
     with open(os.path.join(dt_dir, "carriers.tab")) as f:
         carriers = {c: set(offs) for c, offs in json.load(f).items()}
     if not any(it["cs"] for it in dts) or len(carriers) < 5:
         raise vlib.MachineryError("TLC emitted no tzinfo carrier classes")
-    return cells, dts, carriers
+    return cells, arrs, dts, carriers
 
 
 def tables(ctx):
@@ -137,9 +144,11 @@ def store_sig(ev, clauses):
     dk = ("int" if dt in H.INT_TYPES else
           "string" if dt in ("string", "char16") else
           "real" if dt in ("real32", "real64") else dt)
-    vc = ev["vc"]
+    vc = ev.get("vc", "arr")
     vk = vc
-    if vc == "xkw":
+    if ev["k"] == "arr":
+        vk = "arr"
+    elif vc == "xkw":
         vk = "int"
     else:
         for pre, name in _VK:
@@ -164,7 +173,7 @@ def real_sig(ev, clauses):
                                 else "")
 
 
-SIG = {"store": store_sig, "dt": dt_sig, "real": real_sig}
+SIG = {"store": store_sig, "arr": store_sig, "dt": dt_sig, "real": real_sig}
 
 
 # ---------------------------------------------------------------------------
@@ -191,7 +200,7 @@ def collect_drift(ctx):
             txt = fh.read()
         for m in re.finditer(r'<<"D", \d+, \d+, (\{[^}]*\})>>', txt):
             for item in re.findall(r'"([^"]*)"', m.group(1)):
-                key = re.sub(r"->(u|s)int\d+$", "->intN", item)
+                key = re.sub(r"(->|:)(u|s)int\d+$", r"\1intN", item)
                 seen[key] = seen.get(key, 0) + 1
     for key, n in sorted(seen.items()):
         ctx.note_drift("real code differs from the code-shaped model: %s" %
@@ -200,7 +209,7 @@ def collect_drift(ctx):
 
 
 # ---------------------------------------------------------------------------
-def store_vectors(ctx, cells, nrandom):
+def store_vectors(ctx, cells, nrandom, arrs=()):
     vecs = []
     for cell in cells:
         ev, desc = H.run_store_cell(ctx.rng, cell)
@@ -209,6 +218,9 @@ def store_vectors(ctx, cells, nrandom):
         cell = H.random_store_cell(ctx.rng)
         ev, desc = H.run_store_cell(ctx.rng, cell)
         vecs.append((ev, desc, {"kind": "store", "cell": cell}))
+    for cell in arrs:
+        ev, desc = H.run_arr_cell(ctx.rng, cell)
+        vecs.append((ev, desc, {"kind": "arr", "cell": cell}))
     return vecs
 
 
@@ -253,11 +265,11 @@ def real_vectors(ctx, tab, n):
 
 def run(ctx):
     quick = ctx.tier == "quick"
-    cells, dts, carriers = model_check(ctx, quick)
+    cells, arrs, dts, carriers = model_check(ctx, quick)
     tab = tables(ctx)
     if tab["maxdelta"] != H.MAXDELTA:
         raise vlib.MachineryError("MaxDelta of the spec and the harness differ")
-    sv = store_vectors(ctx, cells, 4000 if quick else 60000)
+    sv = store_vectors(ctx, cells, 4000 if quick else 60000, arrs)
     dv = dt_vectors(ctx, dts, carriers, 1500 if quick else 40000)
     rv = real_vectors(ctx, tab, 40 if quick else 2500)
     judge(ctx, sv, "decision-table vectors observed on the real code")
@@ -272,7 +284,8 @@ def run(ctx):
             d[k] = d.get(k, 0) + 1
         return d
     ctx.extra["store_vectors"] = {
-        "tlc_cells": len(cells), "total": len(sv),
+        "tlc_cells": len(cells), "tlc_array_cells": len(arrs),
+        "total": len(sv),
         "by_container": count(sv, lambda e: e["c"]),
         "by_outcome": count(sv, lambda e: e["out"])}
     ctx.extra["datetime_vectors"] = {
@@ -329,6 +342,9 @@ def replay(rep):
     if rec["kind"] == "store":
         for _ in range(5):      # a few lexical variants
             vecs.append(H.run_store_cell(rng, rec["cell"]))
+    elif rec["kind"] == "arr":
+        for _ in range(3):
+            vecs.append(H.run_arr_cell(rng, rec["cell"]))
     elif rec["kind"] == "dt":
         if rec["how"] == "mut":
             vecs.append(H.dt_vector_for_mutation(list(rec["m"])))
